@@ -124,6 +124,15 @@ def run(tier, seed):
         if not a_["ok"]:
             rep.violation(f"C14/associated-type/{a_['file']}/v{a_['version']}", f"collective/{a_['file']}: `type Version{a_['version']}` resolves to {a_['resolved']} but protocol version {a_['version']} uses {a_['expected']} for {a_['type']}: read_protocol / write_protocol({a_['version']}) run another version's codec",
                           a_, no_input=True)
+    # ---- T-gen: the enum conversion tables of the hand-written impls, arm by arm (lift: same name; lower: same name for every enumerator the older
+    # version has, explicitly) — `lower (lift v) = v` on the enum-valued members for every enumerator
+    ct_out, ct_prob = collective_alias.conversion_tables()
+    for p_ in ct_prob:
+        rep.violation(f"C14/conversion-table/{p_['file']}/{p_['fn']}", f"collective/{p_['file']} {p_['fn']}: {p_['problem']}", p_, no_input=True)
+    for a_ in ct_out:
+        if not a_["ok"]:
+            rep.violation(f"C14/conversion-table/{a_['file']}/{a_['fn']}/{a_['enumerator']}", f"collective/{a_['file']} {a_['fn']}: {a_['enum']}::{a_['enumerator']} is mapped to {a_['maps_to']} (the other version has an enumerator of the same name)",
+                          dict(a_, input=f"a message whose {a_['enum']} is {a_['enumerator']}"), no_input=False)
     d = Driver()
     # ---- (a) embedding check on the schemas
     fams = sorted({o["name"] for o in r.objs if o["kind"] in ("clogin", "slogin")})
